@@ -17,7 +17,9 @@ from refs import btc                        # noqa: E402
 
 PROPERTY = "C01"
 LEVEL = "exploration"
-RULE = ("one run = bring-up + one generated sign request (v5 legacy/segwit/hash or v1 hash) "
+RULE = ("one run = bring-up + 1..3 generated sign requests in one manager lifetime (v5 legacy/segwit/hash "
+        "or v1 hash; a later authorized request may share receipt / proof / transaction with the previous "
+        "one; one request in six meets a link fault at a drawn exchange, at most one per lifetime), each "
         "relayed to a Signer model whose every chunk request, termination class "
         "(exact/late/early per part) and DER answer shape is a seeded draw; non-trivial = the "
         "request reached the device; distinct = tuple (mode, kind, key path, #inputs, push "
